@@ -184,3 +184,14 @@ prop("C09", run="^TestC09", level="exploration",
      text="Model-based stateful exploration (exhaustive to a depth bound for small N, randomised beyond) plus scheduled concurrent stress.",
      note="Trusted: the reference model; the shim (client/verif_hooks.go) calls the same unexported functions Send and the incoming loop call. Concurrent clause: interleavings are sampled, not enumerated.",
      technique="stateful model-based property testing (rapid state machines + exhaustive history enumeration) with hook-point schedule generation", design="DESIGN.md 4 C09, 3.9")
+
+prop("C15", run="^TestC15", level="exploration",
+     quick=(16, 60, 900), thorough=(16, 3000, 7200),
+     rule="sessions: topology {library client <-> library server, library client <-> raw server peer, raw client peer <-> library server} x version {2,3,4,5,DSE1,DSE2} x compression {none, LZ4, Snappy except v5} x auth on/off x 1..4 post-handshake exchanges of generated version-valid request/response frames "
+          "(up to ~330 KiB towards the library; what the library itself sends in v5 kept under one segment) x id discipline (all managed / distinct caller-chosen) x pipelining (all requests first, responses batched by the raw peer into one self-contained segment) x raw-peer segmentations (split of one envelope into 1..4+ segments at generated points, first part >= 9 bytes; LZ4-compressed or fallback segments). "
+          "Raw peers use only the reference encoders/decoders and record wire conformance (handshake unframed, valid CRCs, envelopes inside segments not individually compressed, v5 envelopes not individually compressed). Oracle: frames received == frames sent (canonical equality) in both directions; bytes seen by the raw peer == reference encoding of the frame sent. "
+          "Each session runs in a worker process. Non-trivial = >40 bytes exchanged and (compression or v5 or auth); distinct by session spec",
+     assumptions=["the library has no envelope splitter (documented TODO): envelopes it must SEND under v5 are kept below 131071 bytes", "EVENT responses and fatal ERROR codes (which close the connection by design) are excluded from the exchanged responses; STARTUP/OPTIONS/AUTH_RESPONSE are not re-sent after the handshake"],
+     text="Randomised end-to-end exploration over real sockets with an independent raw peer on either side; worker-isolated.",
+     note="Trusted: the raw peer (rawpeer_test.go) built on harness/ref; 10 s bounds on every blocking step only turn a missing delivery into a failure.",
+     technique="property-based testing (rapid) of socket sessions against an independent spec-derived raw peer; subprocess isolation", design="DESIGN.md 4 C15")
